@@ -19,6 +19,8 @@ CONFIGS = {
     # system-seeder matrix of src/rand/sysrng.c (C20: "library builds with system seeders enabled / all disabled")
     'rnd_getentropy_only': ['-DBR_RDRAND=0', '-DBR_USE_GETENTROPY=1', '-DBR_USE_URANDOM=0'],
     'rnd_urandom_only': ['-DBR_RDRAND=0', '-DBR_USE_GETENTROPY=0', '-DBR_USE_URANDOM=1'],
+    'rnd_esp8266': ['-DBR_RDRAND=0', '-DBR_USE_GETENTROPY=0', '-DBR_USE_URANDOM=0', '-DBR_USE_ESP8266_RAND=1'],      # the target of this port
+    'rnd_pico': ['-DBR_RDRAND=0', '-DBR_USE_GETENTROPY=0', '-DBR_USE_URANDOM=0', '-DBR_USE_PICO_RAND=1'],
 }
 
 
